@@ -78,8 +78,8 @@ func runCeremony(t *testing.T, sid int, sched []drv.Step) []drv.Step {
 		part: ints(cfg["part"]), holders: ints(cfg["holders"]), added: ints(cfg["added"]), removed: ints(cfg["removed"]),
 		shorts: ints(cfg["short"]), badexp: pairs(cfg["badexp"]), src: drv.Str(cfg["src"])}
 	seed := drv.Num(cfg["seed"])
-	nt := drv.Num(cfg["nt"])     // the new threshold the contract names (size of the subsets examined)
-	newidx := map[int]int{}      // member of the new cluster -> its share index in the new cluster (the contract's)
+	nt := drv.Num(cfg["nt"]) // the new threshold the contract names (size of the subsets examined)
+	newidx := map[int]int{}  // member of the new cluster -> its share index in the new cluster (the contract's)
 	newNodes := []int{}
 	for _, p := range pairs(cfg["newidx"]) {
 		newidx[p[0]] = p[1]
